@@ -13,6 +13,7 @@ import (
 	"sort"
 	"strings"
 	"sync"
+	"time"
 
 	"github.com/btcsuite/btcd/btcec/v2"
 	"gitlab.com/aquachain/aquachain/aqua/event"
@@ -48,6 +49,7 @@ type fakeChain struct {
 	head   *blockInfo
 	feed   event.Feed
 	addrs  []common.Address
+	nState int // number of StateAt calls: TxPool.reset makes exactly one, so it signals that an event was handled
 }
 
 func (c *fakeChain) CurrentBlock() *types.Block {
@@ -66,6 +68,7 @@ func (c *fakeChain) GetBlock(h common.Hash, n uint64) *types.Block {
 func (c *fakeChain) StateAt(root common.Hash) (*state.StateDB, error) {
 	c.mu.Lock()
 	defer c.mu.Unlock()
+	c.nState++
 	b, ok := c.roots[root]
 	if !ok {
 		return nil, fmt.Errorf("unknown root")
@@ -76,6 +79,11 @@ func (c *fakeChain) StateAt(root common.Hash) (*state.StateDB, error) {
 		db.SetBalance(a, new(big.Int).Set(b.st[i].bal))
 	}
 	return db, nil
+}
+func (c *fakeChain) stateCalls() int {
+	c.mu.Lock()
+	defer c.mu.Unlock()
+	return c.nState
 }
 func (c *fakeChain) SubscribeChainHeadEvent(ch chan<- core.ChainHeadEvent) event.Subscription {
 	return c.feed.Subscribe(ch)
@@ -122,6 +130,7 @@ type world struct {
 	cfg     core.TxPoolConfig
 	nblocks int
 	noHeads bool
+	viaFeed bool
 	cfgName string
 	history []string
 	mcmds   []string // the exact modelrun command lines of this history (replayable: printf ... | bin/modelrun_pool)
@@ -210,6 +219,10 @@ func (w *world) renderLists(m map[common.Address]core.VerifPoolList) string {
 		ss[i] = e.s
 	}
 	return strings.Join(ss, "|")
+}
+
+func isResetDesc(d string) bool {
+	return strings.HasPrefix(d, "reset ") || strings.HasPrefix(d, "event reset ")
 }
 
 func joinInts(l []int) string {
@@ -577,7 +590,7 @@ func (w *world) directOracle(before, after view, s snap, opDesc string) {
 				if !w.gapped[a] {
 					sig := fmt.Sprintf("pending-not-contiguous/%s/%s", w.cfgName, opDesc)
 					// recognised mechanism: a reset left a hole behind a front that starts at the state nonce
-					if strings.HasPrefix(opDesc, "reset ") && i > 0 {
+					if isResetDesc(opDesc) && i > 0 {
 						sig = "reset-reinject-leaves-gap-in-pending"
 					}
 					w.c.Violate(sig, fmt.Sprintf("sender %d pending nonces are not the run starting at the state nonce %d: position %d has nonce %d (after %s)", a, want, i, t.nonce, opDesc), w.replay(opDesc))
@@ -663,7 +676,7 @@ func (w *world) directOracle(before, after view, s snap, opDesc string) {
 	// followed by promoteExecutables: recognised mechanism, stable signature.  An overshoot that was reported stays
 	// until an operation that must enforce the limit (reset: everything; accepted non-replacing add: GlobalQueue and
 	// the submitter's AccountQueue).
-	isReset := strings.HasPrefix(opDesc, "reset ")
+	isReset := isResetDesc(opDesc)
 	submitter, enforcing := -1, isReset
 	if f := strings.Fields(opDesc); len(f) == 2 && (f[0] == "addr" || f[0] == "addl") {
 		var id int
@@ -682,7 +695,7 @@ func (w *world) directOracle(before, after view, s snap, opDesc string) {
 	demoted := func(a int) bool { // a transaction of a moved from pending to queue in this operation
 		for _, t := range after.queued[a] {
 			for _, o := range before.pending[a] {
-				if o.id == t.id {
+				if o.id == t.id || o.nonce == t.nonce { // itself, or the submission that replaced it in the queue
 					return true
 				}
 			}
@@ -743,6 +756,7 @@ type poolCfg struct {
 	nolocals               bool
 	nsenders, nops         int
 	noHeads                bool                   // after a warm-up no head events: nothing recomputes the virtual nonces
+	viaFeed                bool                   // head changes arrive only as ChainHeadEvents on the real feed (TxPool.loop), not through VerifReset
 	st                     []acct                 // optional fixed initial state (directed histories)
 	gp                     int64                  // optional fixed price limit
 	script                 func(w *world) []sop   // optional directed history instead of generated operations
@@ -1001,6 +1015,10 @@ func (w *world) runHistory(pc poolCfg) {
 	w.chain.head = w.newBlock(nil, 0, nil, st, gasLimit)
 	w.pool = core.NewTxPool(cfg, params.TestChainConfig, w.chain)
 	defer w.pool.Stop()
+	w.viaFeed = pc.viaFeed
+	if w.viaFeed {
+		time.Sleep(2 * time.Millisecond) // let TxPool.loop read its initial head before the chain moves
+	}
 	w.history = append(w.history, fmt.Sprintf("new AccountSlots=%d GlobalSlots=%d AccountQueue=%d GlobalQueue=%d PriceBump=%d NoLocals=%v PriceLimit=%d gaslimit=%d state=%s",
 		pc.as, pc.gs, pc.aq, pc.gq, pc.bump, pc.nolocals, gp, gasLimit, w.curToken(w.chain.head)))
 	s0 := w.snapshot()
@@ -1015,6 +1033,7 @@ func (w *world) runHistory(pc poolCfg) {
 	}
 	for opn := 0; opn < pc.nops; opn++ {
 		var kind, args, desc, want, class string
+		headStale := false
 		extraRel := map[int]bool{}
 		var panicked bool
 		var pv interface{}
@@ -1095,10 +1114,47 @@ func (w *world) runHistory(pc poolCfg) {
 			kind = "reset"
 			args = fmt.Sprintf("%d %s %d:%d %d:%d", nb.gas, w.curToken(nb), old.id, old.block.NumberU64(), nb.id, nb.block.NumberU64())
 			desc = fmt.Sprintf("reset old=block%d(#%d) new=block%d(#%d) gaslimit=%d state=%s", old.id, old.block.NumberU64(), nb.id, nb.block.NumberU64(), nb.gas, w.curToken(nb))
-			panicked, pv = vh.CatchPanic(func() { w.pool.VerifReset(old.block.Header(), nb.block.Header()) })
+			applied := true
+			if w.viaFeed {
+				// the real path: post the event, TxPool.loop calls reset(previous event's head, this head).  reset calls
+				// chain.StateAt exactly once; after that any pool call blocks on pool.mu until the reset is finished.
+				n0 := w.chain.stateCalls()
+				w.chain.feed.Send(core.ChainHeadEvent{Block: nb.block})
+				applied = false
+				for dl := time.Now().Add(400 * time.Millisecond); time.Now().Before(dl); time.Sleep(20 * time.Microsecond) {
+					if w.chain.stateCalls() > n0 {
+						applied = true
+						break
+					}
+				}
+				desc = "event " + desc
+			} else {
+				panicked, pv = vh.CatchPanic(func() { w.pool.VerifReset(old.block.Header(), nb.block.Header()) })
+			}
 			want = "done"
+			// direct oracle: after a head change the pool's view is the new head's state ("after a chain reorganisation
+			// the transactions that dropped out of the canonical chain are pooled again" needs the reset to run at all)
+			if !panicked {
+				sn := w.pool.VerifSnapshot(w.addrs)
+				stale := (!applied && nb.id != old.id) || sn.MaxGas != nb.gas // an ignored re-announcement of the same head is harmless
+				for i, a := range w.addrs {
+					if sn.CurrentNonces[a] != nb.st[i].nonce || sn.Balances[a].Cmp(nb.st[i].bal) != 0 {
+						stale = true
+					}
+				}
+				if stale {
+					rel := "same height"
+					if nb.block.NumberU64() > old.block.NumberU64() {
+						rel = "higher"
+					} else if nb.block.NumberU64() < old.block.NumberU64() {
+						rel = "lower"
+					}
+					c.Violate("head-change-not-applied/"+class+"/"+rel, fmt.Sprintf("after the head moved from block%d(#%d) to block%d(#%d) (%s, %s) the pool still validates against the old head: reset did not run (event handled: %v), dropped transactions are not re-pooled", old.id, old.block.NumberU64(), nb.id, nb.block.NumberU64(), class, rel, applied), w.replay(desc))
+					headStale = true
+				}
+			}
 			// direct oracle for reorg_reinjects: what dropped out of the chain and is still valid is pooled again
-			if !panicked && (pc.name == "default" || pc.name == "medium") {
+			if !panicked && !headStale && (strings.HasPrefix(pc.name, "default") || strings.HasPrefix(pc.name, "medium")) {
 				after := w.view(w.snapshot())
 				for _, t := range reinjectWant {
 					if after.listed[t.id] || before.all[t.id] {
@@ -1114,6 +1170,13 @@ func (w *world) runHistory(pc poolCfg) {
 					}
 					// (no claim when the pool is full: a reinjected transaction may then be refused as underpriced or evicted)
 					pressure := uint64(len(before.all)+len(reinjectWant)) >= pc.gs+pc.gq
+					npend := 0
+					for _, l := range after.pending {
+						npend += len(l)
+					}
+					if uint64(npend) >= pc.gs && !after.locals[t.from] { // GlobalSlots reached: a non-local sender may have been cut back
+						pressure = true
+					}
 					if valid && !competitor && !pressure && uint64(len(after.queued[t.from])) < pc.aq {
 						c.Violate("reorg-drops-valid-tx/"+pc.name, fmt.Sprintf("tx %d dropped out of the canonical chain, is still valid, and is not in the pool after the reorganisation", t.id), w.replay(desc))
 					}
@@ -1142,9 +1205,9 @@ func (w *world) runHistory(pc poolCfg) {
 				relevant[a] = true
 			}
 		}
-		if w.m != nil {
+		if w.m != nil && !headStale {
 			ans, ok := w.askOp(kind, args, obs, post, relevant)
-			c.Correspond("TxPool."+map[string]string{"addr": "AddRemote~add_remote", "addl": "AddLocal~add_local", "gasprice": "SetGasPrice~set_gas_price", "reset": "reset~reset_heads"}[kind],
+			c.Correspond("TxPool."+map[string]string{"addr": "AddRemote~add_remote", "addl": "AddLocal~add_local", "gasprice": "SetGasPrice~set_gas_price", "reset": map[bool]string{false: "reset~reset_heads", true: "loop(ChainHeadEvent)~reset_heads"}[w.viaFeed]}[kind],
 				strings.Join(w.history, " ; "), obs+" ## "+post.stale, ans)
 			if !ok {
 				os.WriteFile(filepath.Join(c.OutDir, fmt.Sprintf("disagreement_%d.txt", c.Res.NDisagreements)), []byte(strings.Join(w.mcmds, "\n")+"\n# observed: "+obs+" ## "+post.stale+"\n"), 0o644)
@@ -1158,6 +1221,13 @@ func (w *world) runHistory(pc poolCfg) {
 				}
 				w.m = nil
 			}
+		}
+		if headStale {
+			if w.m != nil {
+				ans, _ := w.askOp(kind, args, obs, post, relevant)
+				c.Correspond("TxPool.loop(ChainHeadEvent)~reset_heads", strings.Join(w.history, " ; "), obs+" ## "+post.stale, ans)
+			}
+			return // the pool no longer follows the chain: everything after this is a consequence
 		}
 		w.directOracle(before, after, post, desc)
 		if want == "panic" {
@@ -1215,6 +1285,23 @@ func (w *world) planRandom(before view) sop {
 				return sop{kind: "head", class: "head/" + cl, nb: nb}
 			}
 		}
+		if old.block.NumberU64() >= 1 && r.Chance(7) { // head rewind: the new head is an ancestor of the old one
+			plan := sop{kind: "head", class: "head/rewind"}
+			anc := old
+			for i, n := 0, 1+r.Intn(2); i < n && anc.block.NumberU64() > 0; i++ {
+				for _, tx := range anc.block.Transactions() {
+					t := w.txs[tx.Hash()]
+					plan.reinjectWant = append(plan.reinjectWant, t)
+					plan.touched = append(plan.touched, t.from)
+				}
+				anc = w.chain.blocks[anc.block.ParentHash()]
+			}
+			plan.nb = anc
+			return plan
+		}
+		if r.Chance(4) { // the same head announced again
+			return sop{kind: "head", class: "head/duplicate", nb: old}
+		}
 		if k < 88 || old.block.NumberU64() == 0 { // advance: mine a prefix of pending for some senders
 			return sop{kind: "head", class: "head/advance", nb: w.mineOn(old, before, nil)}
 		}
@@ -1250,6 +1337,16 @@ func (w *world) planRandom(before view) sop {
 			}
 		}
 		plan.nb = cur
+		if plan.class == "head/reorg" {
+			switch {
+			case cur.block.NumberU64() > old.block.NumberU64():
+				plan.class = "head/reorg-longer"
+			case cur.block.NumberU64() == old.block.NumberU64():
+				plan.class = "head/reorg-same-height"
+			default:
+				plan.class = "head/reorg-lower"
+			}
+		}
 		for _, t := range discarded {
 			plan.touched = append(plan.touched, t.from)
 			if !incl[t.id] && nlen != 70 {
@@ -1550,6 +1647,44 @@ func directedRequeue(w *world) []sop {
 	}
 }
 
+// directedFeed: head changes only through the ChainHeadEvent feed (TxPool.loop): growth, reorganisation onto a longer
+// branch, onto a sibling of the SAME height, onto a LOWER heavier branch, head rewind, duplicate event.  A submits
+// nonces 0..2; block1 mines 0, block2 mines 1, block3 mines 2.
+func directedFeed(w *world) []sop {
+	b0 := w.chain.head
+	mk := func(nonce uint64, price int64) *mtx {
+		return w.mkTx(0, nonce, w.uniquePrice(price), 21000, big.NewInt(100), nil, false)
+	}
+	t0, t1, t2 := mk(0, 100), mk(1, 101), mk(2, 102)
+	child := func(parent *blockInfo, txs ...*mtx) *blockInfo {
+		st := copySt(parent.st)
+		for _, t := range txs {
+			st[t.from].nonce++
+			st[t.from].bal.Sub(st[t.from].bal, t.cost())
+		}
+		return w.newBlock(parent, parent.block.NumberU64()+1, txs, st, 1000000)
+	}
+	b1 := child(b0, t0)
+	b2 := child(b1, t1)
+	b3 := child(b2, t2)
+	b2s := child(b1)             // sibling of block2 (same height as the head block2 when announced after it)
+	b3l := child(child(b1))      // longer branch from block1 without t1,t2
+	_ = b3
+	b1low := child(b0)           // heavier branch of LOWER height: sibling of block1
+	ops := []sop{
+		{kind: "add", class: "directed/feed", t: t0}, {kind: "add", class: "directed/feed", t: t1}, {kind: "add", class: "directed/feed", t: t2},
+		{kind: "head", class: "directed/feed-growth", nb: b1},
+		{kind: "head", class: "directed/feed-growth", nb: b2},
+		{kind: "head", class: "directed/feed-reorg-same-height", nb: b2s, reinjectWant: []*mtx{t1}, touched: []int{0}},
+		{kind: "head", class: "directed/feed-duplicate", nb: b2s},
+		{kind: "head", class: "directed/feed-reorg-longer", nb: b3l},
+		{kind: "head", class: "directed/feed-reorg-lower", nb: b1low, reinjectWant: []*mtx{t0}, touched: []int{0}},
+		{kind: "head", class: "directed/feed-rewind", nb: b0},
+		{kind: "head", class: "directed/feed-growth", nb: b1},
+	}
+	return ops
+}
+
 // ---------------------------------------------------------------- concurrent variant (direct oracle only)
 
 func (w *world) runConcurrent(pc poolCfg) {
@@ -1671,6 +1806,8 @@ func main() {
 	}
 	w.runHistory(poolCfg{name: "tiny", as: 2, gs: 4, aq: 2, gq: 4, bump: 10, nsenders: 2, gp: 1,
 		st: []acct{{0, big.NewInt(1000000000)}, {0, big.NewInt(1000000000)}}, script: directedRequeue})
+	w.runHistory(poolCfg{name: "default", as: 16, gs: 4096, aq: 64, gq: 1024, bump: 10, nsenders: 2, gp: 1, viaFeed: true,
+		st: []acct{{0, big.NewInt(1000000000)}, {0, big.NewInt(1000000000)}}, script: directedFeed})
 	for _, v := range []string{"equalize", "min"} {
 		w.runHistory(poolCfg{name: "slots", as: 1, gs: 4, aq: 3, gq: 6, bump: 10, nsenders: 3, gp: 1,
 			st: []acct{{0, big.NewInt(1000000000)}, {0, big.NewInt(1000000000)}, {0, big.NewInt(1000000000)}}, script: directedSlots(v)})
@@ -1690,6 +1827,10 @@ func main() {
 		}
 		pc.nolocals = c.Rng.Chance(10)
 		pc.noHeads = pc.name != "default" && c.Rng.Chance(50)
+		pc.viaFeed = !pc.noHeads && c.Rng.Chance(40)
+		if pc.viaFeed {
+			pc.name += "-feed"
+		}
 		w.runHistory(pc)
 	}
 	for i := 0; i < c.Scale(6, 100); i++ {
